@@ -2605,6 +2605,28 @@ br_cpuid(uint32_t mask_eax, uint32_t mask_ebx,
 #endif
 
 
+/*
+ * Verification hooks. They expand to nothing unless the library is
+ * compiled with -DBEARSSL_ESP8266_VERIF, in which case the two functions
+ * are supplied by the test harness.
+ */
+#ifdef BEARSSL_ESP8266_VERIF
+#ifdef __cplusplus
+extern "C" {
+#endif
+extern void br_verif_t0_step(int id, void *t0ctx,
+	const uint32_t *dp, const uint32_t *rp, size_t ipoff);
+extern void br_verif_public(const void *ptr, size_t len);
+#ifdef __cplusplus
+}
+#endif
+#define BR_VERIF_T0_STEP(id, ctx, dp, rp, ipoff)   br_verif_t0_step(id, ctx, dp, rp, ipoff)
+#define BR_VERIF_PUBLIC(ptr, len)   br_verif_public(ptr, len)
+#else
+#define BR_VERIF_T0_STEP(id, ctx, dp, rp, ipoff)   ((void)0)
+#define BR_VERIF_PUBLIC(ptr, len)   ((void)0)
+#endif
+
 /* ==================================================================== */
 
 #endif
